@@ -33,6 +33,10 @@ ASSUMES = ['well-formed = at most one file per glob pattern, consistent shapes, 
            'whitening matrices whose inverse is exact in binary64']
 TIMEOUT = {'quick': 20, 'thorough': 30}
 
+# how the model is constructed (implementation-side axis; the abstract result does not depend on it):
+# keyword arguments, load_model(params.py) with dat_path a list of file names relative to the directory,
+# the same with upper-case parameter names / dat_path a bare string when there is exactly one raw file / absolute paths
+ROUTES = ['kwargs', 'params', 'params_alt']
 ID_DTYPES = ['uint16', 'uint32', 'int32', 'int64']
 TIME_DTYPES = ['uint64', 'int64', 'int32']
 CM_DTYPES = ['uint32', 'int32', 'int64']
@@ -45,7 +49,8 @@ def _mk(rng, **force):
         'write_clusters': rng.random() < 0.5, 'id_dtype': rng.choice(ID_DTYPES), 'time_dtype': rng.choice(TIME_DTYPES),
         'cm_dtype': rng.choice(CM_DTYPES), 'alf_samples': rng.random() < 0.5, 'write_wmi': rng.random() < 0.3,
         'tmpl_dtype': rng.choice(['float32', 'float64']), 'nan': rng.random() < 0.35, 'nan_template': rng.random() < 0.15,
-        'attrs': rng.random() < 0.4, 'nonmono': rng.random() < 0.08,
+        'attrs': rng.random() < 0.4, 'nonmono': rng.random() < 0.08, 'sparse': rng.random() < 0.3,
+        'route': rng.choice(ROUTES),
     }
     o.update(force)
     sem = D.gen_semantic(rng, n_spikes=rng.randint(2, 9), n_templates=rng.randint(2, 4), n_channels=rng.randint(2, 5),
@@ -79,6 +84,26 @@ def _mk(rng, **force):
         files['channels.shanks%s.npy' % lab] = {'dtype': 'int32', 'shape': [nc], 'data': [rng.randrange(3) for _ in range(nc)]}
         files['channel_probe.npy'] = {'dtype': 'int32', 'shape': [nc], 'data': [rng.randrange(3) for _ in range(nc)]}
         files['channels.probes%s.npy' % lab] = {'dtype': 'int32', 'shape': [nc], 'data': [rng.randrange(3) for _ in range(nc)]}
+    if o['sparse']:
+        # sparse template storage: (n_templates, n_samples, n_channels_loc) data + a column table of channel ids
+        # (trailing -1 = unused column); no axis of length 1 (the loader squeezes)
+        tn = [n for n in files if n.startswith('templates')][0]
+        nt_, nsw_, nc_ = files[tn]['shape']
+        ncl = rng.randint(2, nc_)
+        cols = []
+        for _ in range(nt_):
+            row = rng.sample(range(nc_), ncl)
+            if ncl > 2 and rng.random() < 0.4:
+                row[-1] = -1
+            cols.append(row)
+        dense = files[tn]['data']
+        data = [(dense[(t * nsw_ + s_) * nc_ + c] if c >= 0 else 0.0)
+                for t in range(nt_) for s_ in range(nsw_) for c in cols[t]]
+        files[tn] = {'dtype': files[tn]['dtype'], 'shape': [nt_, nsw_, ncl], 'data': data}
+        lab_ = ('.' + o['label']) if o['label'] else ''
+        cn = 'template_ind.npy' if o['names'] == 'ks' else 'templates.waveformsChannels%s.npy' % lab_
+        files[cn] = {'dtype': rng.choice(['int32', 'int64', 'uint32']) if all(c >= 0 for r in cols for c in r) else rng.choice(['int32', 'int64']),
+                     'shape': [nt_, ncl], 'data': [c for r in cols for c in r]}
     if o['attrs']:
         files['spike_foo.npy'] = {'dtype': 'float64', 'shape': [ns, 1] if o['vec2d'] else [ns],
                                   'data': [float(rng.randint(-5, 5)) for _ in range(ns)]}
@@ -111,6 +136,7 @@ def _mk(rng, **force):
 
 
 AXES = [
+    ('sparse', [False, True]), ('route', ROUTES),
     ('names', ['ks', 'alf']), ('label', ['', 'probe00']), ('vec2d', [False, True]), ('write_clusters', [False, True]),
     ('amplitudes', [False, True]), ('whitening', ['none', 'perm2', 'tri', 'diag']), ('write_wmi', [False, True]),
     ('shanks', [False, True]), ('probes', [False, True]), ('similar', [False, True]), ('raw', [False, True]),
@@ -161,9 +187,24 @@ def run_case(case):
     d = tempfile.mkdtemp(prefix='c04_', dir=os.environ.get('VT_WORK') or None)
     try:
         kw = D.materialise(ds, d)
+        route = ds.get('opts', {}).get('route', 'kwargs')
+        if route == 'params_alt':
+            from pathlib import Path
+            dp = [str(x) for x in kw.get('dat_path', [])]
+            with open(os.path.join(d, 'params.py'), 'w') as f:
+                f.write('DAT_PATH = %r\n' % (os.path.basename(dp[0]) if len(dp) == 1 else dp))
+                f.write('N_CHANNELS_DAT = %r\n' % kw['n_channels_dat'])
+                f.write('Dtype = %r\n' % str(kw['dtype']))
+                f.write('offset = %r\n' % kw['offset'])
+                f.write('SAMPLE_RATE = %r\n' % float(kw['sample_rate']))
+                f.write('hp_filtered = True\n')
         before = D.listing(d)
         try:
-            m = TemplateModel(**kw)
+            if route == 'kwargs':
+                m = TemplateModel(**kw)
+            else:
+                from phylib.io.model import load_model
+                m = load_model(os.path.join(d, 'params.py'))
         except ValueError as e:
             if 'increasing' in str(e):
                 return ('rejected',)
